@@ -33,6 +33,8 @@ def project(cs, evs):
         ev, s = e["ev"], e.get("s")
         if s in closed and ev not in ("panic", "hang", "linger", "died"):
             continue
+        if cs.get("prelude") and s == 0 and ev not in ("panic", "hang", "linger", "died"):
+            continue      # an earlier call on the same Shell that used completion: not a "types only printable characters" call
         if ev == "session":
             out.append(({"ev": "session"}, e))
             started[s] = 0
@@ -128,6 +130,15 @@ def run(rep, tier, seed):
             lines += ["set %s %s" % kv for kv in combo.items()]
             cs = {"id": "c02-%s-%d" % (mode, ci), "inputrc": "\n".join(lines) + "\n", "w": rng.choice([80, 20, 200]), "h": 24,
                   "prompt": rng.choice(["> ", ""]), "sessions": [], "wrap": "none"}
+            if ci % 3 == 1:
+                # the Shell has been used before: an earlier call completed a word (candidates with removable suffixes, hints,
+                # a menu) and was accepted or aborted; what it left behind must not touch what is typed afterwards
+                cs["comp"] = {"cands": rng.choice([[{"v": "dir/"}], [{"v": "dir/"}, {"v": "dir2/"}, {"v": "file"}], [{"v": "key="}], [{"v": "a b"}]]),
+                              "byword": True, "nospace": rng.choice(["/", "=", "*", "/="])}
+                cs["prelude"] = True
+                pre = rng.choice(["cd di", "di", "x ke", "ls -l di", ""])
+                cs["sessions"].append([keys(pre)] * (1 if pre else 0) + [keys(b"\t")] + ([keys(b"\t")] if rng.random() < 0.3 else []) +
+                                      [keys(rng.choice([b"\r", b"\r", b"\x03", b"x\r"]))])
             for s in chunk:
                 style = rng.choice(["rune", "paste", "groups", "bytes", "bytegroups"])
                 if style == "rune":
@@ -179,7 +190,7 @@ def run(rep, tier, seed):
     run_session_property(rep, cases, project, "TypedTrace", "TypedTrace.cfg", "c02-run", nontrivial=nontrivial)
     rep.rule = ("every string of length <= %d over ten character classes {ASCII letter, space, quote, backslash, punctuation, Latin-1, wide CJK, "
                 "astral, combining mark, fullwidth, characters sharing leading UTF-8 bytes with a default bound sequence} plus seeded strings of 5..40 characters from larger class pools, typed one character per read, as one "
-                "paste, or in random groups, in emacs and vi-insert; ASCII strings additionally under all 16 settings of convert-meta / "
+                "paste, or in random groups, in emacs and vi-insert (one case in three on a Shell whose earlier call completed a word with removable suffixes); ASCII strings additionally under all 16 settings of convert-meta / "
                 "input-meta / output-meta / enable-meta-key; non-trivial = distinct non-ASCII texts returned" % maxlen)
     rep.exhaustive = True
     rep.explanation = ("TypedText model-checks byte-level insertion under every chunking; the recorded sessions are validated by TypedTrace: the "
